@@ -71,9 +71,38 @@ func c01Run(in []byte, v c01Variant, wantMeasure bool) (sig uint64, ok bool, key
 	}
 }
 
+// c01Prev, when set, is what a used Message held before the input (see sweepPrefixAfterFull); it got there
+// through the same entry point.
+var c01Prev []byte
+
+func c01Prime(m *stun.Message, entry int, prev []byte) {
+	data := append([]byte(nil), prev...)
+	switch entry {
+	case 0:
+		_ = stun.Decode(data, m)
+	case 1:
+		m.Raw = data
+		_ = m.Decode()
+	case 2:
+		_, _ = m.Write(data)
+	case 3:
+		_ = m.UnmarshalBinary(data)
+	case 4:
+		_ = m.GobDecode(data)
+	case 5:
+		m.Raw = make([]byte, 0, len(data)+64)
+		_, _ = m.ReadFrom(&udpReader{d: data})
+	case 6:
+		_ = (&stun.Message{Raw: data}).CloneTo(m)
+	}
+}
+
 func c01Run1(in []byte, v c01Variant, wantMeasure bool) (sig uint64, ok bool, key, detail string) {
 	var m *stun.Message
-	if v.Used {
+	if v.Used && c01Prev != nil {
+		m = new(stun.Message)
+		c01Prime(m, v.Entry, c01Prev)
+	} else if v.Used {
 		m = new(stun.Message)
 		if _, err := m.Write(c01Big); err != nil {
 			return 0, false, "harness", "big message does not decode: " + err.Error()
@@ -244,8 +273,9 @@ func c01Variants(wide bool) []c01Variant {
 }
 
 type c01Replay struct {
-	Hex string     `json:"hex"`
-	V   c01Variant `json:"v"`
+	Hex  string     `json:"hex"`
+	Prev string     `json:"prev,omitempty"`
+	V    c01Variant `json:"v"`
 	// cross-variant disagreement: second variant
 	V2 *c01Variant `json:"v2,omitempty"`
 }
@@ -256,7 +286,7 @@ func c01Input(c *Ctx, in []byte, vs []c01Variant, wc *watchCase, measure bool) (
 	var refV c01Variant
 	for _, v := range vs {
 		wc.Detail = c01EntryNames[v.Entry] + " does not return"
-		wc.Replay = c01Replay{Hex: hex.EncodeToString(in), V: v}
+		wc.Replay = c01Replay{Hex: hex.EncodeToString(in), Prev: hex.EncodeToString(c01Prev), V: v}
 		c.Watch(wc)
 		c.Eval(1)
 		sig, ok, key, detail := c01Run(in, v, measure)
@@ -264,7 +294,7 @@ func c01Input(c *Ctx, in []byte, vs []c01Variant, wc *watchCase, measure bool) (
 			c.Res.Extra["sum_alloc_measurements"] = c.Res.Extra["sum_alloc_measurements"].(float64) + 1
 		}
 		if key != "" {
-			c.Violation(key, detail, c01Replay{Hex: hex.EncodeToString(in), V: v})
+			c.Violation(key, detail, c01Replay{Hex: hex.EncodeToString(in), Prev: hex.EncodeToString(c01Prev), V: v})
 			return false
 		}
 		if v.Trunc {
@@ -322,6 +352,18 @@ func init() {
 			sweepLarge(c, mk(wide, "wide"))
 			sweepTypes(c, mk(narrow, "narrow"))
 			sweepShort(c, mk(wide, "wide"))
+			sweepMsgTypes(c, mk(narrow, "narrow"))
+			sweepLongTail(c, mk(narrow, "narrow"))
+			var reuse []c01Variant
+			for _, e := range []int{0, 2, 3, 4, 5, 6} {
+				reuse = append(reuse, c01Variant{Entry: e, Slack: 64, Used: true})
+			}
+			prefixFn := mk(reuse, "reuse")
+			sweepPrefixAfterFull(c, func(in *decodeInput, seq int64) {
+				c01Prev = in.Prev
+				prefixFn(in, seq)
+				c01Prev = nil
+			})
 			c.Watch(nil)
 			if c.Expired() {
 				c.Res.Exhaustive = false
@@ -340,6 +382,9 @@ func init() {
 				c.Fail("%v", err)
 			}
 			b, _ := hex.DecodeString(r.Hex)
+			if r.Prev != "" {
+				c01Prev, _ = hex.DecodeString(r.Prev)
+			}
 			vs := []c01Variant{r.V}
 			if r.V2 != nil {
 				vs = append(vs, *r.V2)
